@@ -411,7 +411,10 @@ func (r ReferenceStorage) CheckAndSetReference(ref, old *plumbing.Reference) err
 
 	if old != nil {
 		tmp := r[ref.Name()]
-		if tmp != nil && tmp.Hash() != old.Hash() {
+		// Symbolic references all have the zero hash: compare what they
+		// point to.
+		if tmp != nil && (tmp.Type() != old.Type() || tmp.Hash() != old.Hash() ||
+			(tmp.Type() == plumbing.SymbolicReference && tmp.Target() != old.Target())) {
 			return storage.ErrReferenceHasChanged
 		}
 	}
